@@ -587,26 +587,41 @@ class Run:
             key = ("st", self.c2sha[c], nref)
             if key not in self.blame_cache:
                 sha = self.c2sha[c]
-                p = self.gitai_cmd(["stats", sha, "--json"])
-                rec = {"has": False}
-                try:
-                    j = json.loads(p.stdout.decode().strip().split("\n")[-1])
-                    ns = self.plain(["show", "--numstat", "--format=", "--no-renames", sha], check=False).stdout.decode()
-                    na = nd = 0
-                    for ln in ns.split("\n"):
-                        parts = ln.split("\t")
-                        if len(parts) >= 3 and parts[0].isdigit() and parts[1].isdigit():
-                            na += int(parts[0])
-                            nd += int(parts[1])
-                    tb = j.get("tool_model_breakdown", {})
-                    rec = {"has": True, "added": j["git_diff_added_lines"], "deleted": j["git_diff_deleted_lines"],
-                           "numstat_added": na, "numstat_deleted": nd, "ai_accepted": j["ai_accepted"],
-                           "human": j["human_additions"], "mixed": j["mixed_additions"], "ai": j["ai_additions"],
-                           "tools_ai_accepted": sum(t.get("ai_accepted", 0) for t in tb.values()),
-                           "tools_ai": sum(t.get("ai_additions", 0) for t in tb.values()),
-                           "tools_mixed": sum(t.get("mixed_additions", 0) for t in tb.values())}
-                except (ValueError, KeyError, IndexError):
-                    self.stats_failed = getattr(self, "stats_failed", 0) + 1
+
+                def one(extra, skip_path):
+                    p = self.gitai_cmd(["stats", sha, "--json"] + extra)
+                    try:
+                        j = json.loads(p.stdout.decode().strip().split("\n")[-1])
+                        ns = self.plain(["-c", "core.quotePath=false", "show", "--numstat", "--format=", "--no-renames",
+                                         sha], check=False).stdout.decode()
+                        na = nd = 0
+                        for ln in ns.split("\n"):
+                            parts = ln.split("\t")
+                            if len(parts) >= 3 and parts[0].isdigit() and parts[1].isdigit():
+                                if skip_path is not None and git_unquote(parts[2]) == skip_path:
+                                    continue
+                                na += int(parts[0])
+                                nd += int(parts[1])
+                        tb = j.get("tool_model_breakdown", {})
+                        return {"has": True, "added": j["git_diff_added_lines"], "deleted": j["git_diff_deleted_lines"],
+                                "numstat_added": na, "numstat_deleted": nd, "ai_accepted": j["ai_accepted"],
+                                "human": j["human_additions"], "mixed": j["mixed_additions"], "ai": j["ai_additions"],
+                                "tools_ai_accepted": sum(t.get("ai_accepted", 0) for t in tb.values()),
+                                "tools_ai": sum(t.get("ai_additions", 0) for t in tb.values()),
+                                "tools_mixed": sum(t.get("mixed_additions", 0) for t in tb.values())}
+                    except (ValueError, KeyError, IndexError):
+                        self.stats_failed = getattr(self, "stats_failed", 0) + 1
+                        return {"has": False}
+
+                rec = one([], None)
+                if rec["has"]:
+                    if len(self.files) > 1:
+                        ig = self.files[-1]
+                        sub = one(["--ignore", self.world.path(ig)], self.world.path(ig))
+                        sub["file"] = ig
+                        rec["ign"] = sub
+                    else:
+                        rec["ign"] = {"has": False}
                 self.blame_cache[key] = rec
             out.append(self.blame_cache[key])
         return out
